@@ -1264,8 +1264,10 @@ impl<'a> CompilerState<'a> {
                                 var_type = match var_type {
                                     VariableType::Char => VariableType::CharPtr,
                                     _ => {
-                                        return Err(self
-                                            .syntax_error("Type too complex not supported", start))
+                                        return Err(self.syntax_error(
+                                            "Type too complex not supported",
+                                            p.as_span().start(),
+                                        ))
                                     }
                                 }
                             }
@@ -1787,12 +1789,13 @@ impl<'a> CompilerState<'a> {
                                             _ => {
                                                 return Err(self.syntax_error(
                                                     "Type too complex not supported",
-                                                    start,
+                                                    p.as_span().start(),
                                                 ))
                                             }
                                         }
                                     }
                                     Rule::id_name => {
+                                        start = p.as_span().start();
                                         shortname = p.as_str();
                                         name = format!(
                                             "{}_{}_{shortname}",
